@@ -199,7 +199,8 @@ pub fn triage(prop: &str, tier: Tier) {
         "C01" | "C03" | "C04" | "C06" | "C08" | "C09" | "C10" | "C11" => run_tree(prop, tier),
         _ => crate::special::run(prop, tier),
     };
-    let db = crate::findings::load();
+    // the generated per-property findings (K-… comment keys, X-… listed inputs) are rebuilt from this sweep: ignore the old ones
+    let db: Vec<_> = crate::findings::load().into_iter().filter(|f| !f.id.starts_with("K-") && !f.id.starts_with("X-")).collect();
     let mut keys: std::collections::BTreeMap<String, (u64, String)> = Default::default();
     let mut key_repro: std::collections::BTreeMap<String, Value> = Default::default();
     let mut repairs: std::collections::BTreeMap<String, (u64, String)> = Default::default();
@@ -219,7 +220,7 @@ pub fn triage(prop: &str, tier: Tier) {
             let mut reps = vec![];
             for name in ["eol_blank_in_literal", "cr_in_literal", "nonascii_eol_blank", "paren_literal_then_text", "comment_only_content", "explode_multi_stmt_blocks"] {
                 if let Some(r) = crate::classifiers::repair(name, &v.input) {
-                    if r != v.input && violated(v, &r) == Some(false) {
+                    if r != v.input && crate::classifiers::recheck(v, &r) == Some(false) {
                         reps.push(name.to_string());
                     }
                 }
@@ -254,6 +255,24 @@ pub fn triage(prop: &str, tier: Tier) {
         }
         leftovers.push(json!({"sha": util::sha_hex(&v.input), "input": v.input, "cfg": v.cfg.map(|c| c.json()), "detail": util::clip(&v.detail, 300), "origin": v.origin, "oracle": v.oracle, "extra": v.extra, "property": v.property}));
     }
+    // second pass: inputs with several comments at culprit positions (each sufficient on its own) are explained by the
+    // key set as a whole — the same counterfactual the comment_key classifier applies at check time
+    let all_keys: Vec<String> = keys.keys().cloned().collect();
+    let key_refs: Vec<&str> = all_keys.iter().map(|s| s.as_str()).collect();
+    let before = leftovers.len();
+    let explained: Vec<bool> = leftovers
+        .par_iter()
+        .map(|l| {
+            let Some(v) = vs.iter().find(|v| util::sha_hex(&v.input) == l["sha"].as_str().unwrap_or("") && v.oracle == l["oracle"].as_str().unwrap_or("")) else { return false };
+            match crate::classifiers::remove_comments_with_keys(&v.input, &key_refs) {
+                Some(x) if x != v.input => crate::classifiers::recheck(v, &x) == Some(false),
+                _ => false,
+            }
+        })
+        .collect();
+    let mut it = explained.iter();
+    leftovers.retain(|_| !*it.next().unwrap());
+    eprintln!("triage: {} of {} leftovers explained by removing all comments at known positions", before - leftovers.len(), before);
     let out = json!({
         "property": prop,
         "already_known": known,
